@@ -677,4 +677,111 @@ theorem placeNodes_inStep (S : Schema) (hdet : DetS S) (hf : FillersOK S) (hw : 
         rw [show f.frontierDepth + 1 + (k + 1) - 1 = f.frontierDepth + 1 + k by omega]
         exact hsp4
 
+/-! ### every iteration, the loop, `replace_step` -/
+
+theorem fitStep_inStep (S : Schema) (hdet : DetS S) (hf : FillersOK S) (hw : WrapOK S) (hlab : LabelsOK S)
+    (st : FitState) (inv : InStep st) (hwf : st.unplaced.wf = true) (hsz : (st.unplaced.size == 0) = false)
+    (st' : FitState) (h : fitStep S st = .ok st') : InStep st' := by
+  simp only [Slice.wf, Bool.and_eq_true, decide_eq_true_eq] at hwf
+  unfold fitStep at h
+  obtain ⟨f, hfit, h⟩ := FM.bind_ok h
+  cases f with
+  | some f => exact placeNodes_inStep S hdet hf hw hlab st inv hwf.2 hwf.1 hsz f hfit st' h
+  | none =>
+    simp only at h
+    obtain ⟨o, ho, h⟩ := FM.bind_ok h
+    cases o with
+    | some st1 =>
+      have := pure_ok h
+      subst this
+      unfold openMore at ho
+      obtain ⟨inner, _, ho⟩ := FM.bind_ok ho
+      split at ho
+      · simp [pure, Except.pure] at ho
+      · split at ho
+        · simp [pure, Except.pure] at ho
+        · have := pure_ok ho
+          simp only [Option.some.injEq] at this
+          subst this
+          exact ⟨inv.frok, inv.ne, inv.sp⟩
+    | none =>
+      simp only at h
+      unfold dropNode at h
+      obtain ⟨inner, _, h⟩ := FM.bind_ok h
+      split at h
+      · obtain ⟨c, _, h⟩ := FM.bind_ok h
+        have := pure_ok h
+        subst this
+        exact ⟨inv.frok, inv.ne, inv.sp⟩
+      · obtain ⟨c, _, h⟩ := FM.bind_ok h
+        have := pure_ok h
+        subst this
+        exact ⟨inv.frok, inv.ne, inv.sp⟩
+
+theorem fitLoop_inStep (S : Schema) (hdet : DetS S) (hf : FillersOK S) (hw : WrapOK S) (hlab : LabelsOK S) :
+    ∀ (fuel : Nat) (st st' : FitState), fitLoop S fuel st = .ok st' → InStep st →
+      fitLoopAll S (fun s => s.unplaced.wf) fuel st = some true → InStep st'
+  | 0, st, st', h, inv, _ => by
+    unfold fitLoop at h
+    split at h
+    · have := pure_ok h
+      subst this; exact inv
+    · simp [throw, throwThe, MonadExceptOf.throw] at h
+  | fuel + 1, st, st', h, inv, hall => by
+    unfold fitLoop at h
+    split at h
+    · have := pure_ok h
+      subst this; exact inv
+    · rename_i hsz
+      obtain ⟨st1, h1, h⟩ := FM.bind_ok h
+      unfold fitLoopAll at hall
+      rw [if_neg hsz] at hall
+      simp only [h1] at hall
+      cases hr : fitLoopAll S (fun s => s.unplaced.wf) fuel st1 with
+      | none => rw [hr] at hall; simp at hall
+      | some b =>
+        rw [hr] at hall
+        simp only [Option.map_some, Option.some.injEq, Bool.and_eq_true] at hall
+        obtain ⟨hb, hwf⟩ := hall
+        subst hb
+        have inv1 := fitStep_inStep S hdet hf hw hlab st inv hwf (by simpa using hsz) st1 h1
+        exact fitLoop_inStep S hdet hf hw hlab fuel st1 st' h inv1 hr
+
+/-- **every step `replace_step` emits is well-formed** when the unplaced slice stays well-formed over
+    the run of the Fitter -/
+theorem replaceStep_wf_run (S : Schema) (hdet : DetS S) (hfill : FillersOK S) (hw : WrapOK S) (hlab : LabelsOK S)
+    (doc : Node) (f t : Nat) (sl : Slice) (hv : S.checkNode doc = true) (hattrs : S.nodeAttrsOK doc = true)
+    (hwf : sl.wf = true) (hrun : unplacedWfRun S doc f t sl = true) (st : Step)
+    (h : replaceStep S doc f t sl = .ok (some st)) : StepWF st = true := by
+  unfold replaceStep at h
+  unfold unplacedWfRun at hrun
+  split at h
+  · simp [pure, Except.pure] at h
+  · rename_i hcond
+    rw [if_neg hcond] at hrun
+    split at h
+    · rename_i rf rt hf ht
+      simp only [hf, ht] at hrun
+      split at h
+      · simp [throw, throwThe, MonadExceptOf.throw] at h
+      · have := pure_ok h
+        simp only [Option.some.injEq] at this
+        subst this
+        exact hwf
+      · rename_i htriv
+        simp only [htriv] at hrun
+        obtain ⟨st0, h0, hu, hfr, hlen, hsp, _⟩ := fitInit_ok S hf hv sl
+        rw [h0] at hrun
+        simp only [beq_iff_eq] at hrun
+        have inv0 : InStep st0 := by
+          refine ⟨hfr, ?_, by rw [hlen, Nat.add_sub_cancel]; exact hsp⟩
+          intro h; rw [h] at hlen; simp at hlen
+        have h' := h
+        unfold fitterFit at h'
+        rw [FM.bind_eq h0] at h'
+        obtain ⟨st1, h1, _⟩ := FM.bind_ok h'
+        have inv1 := fitLoop_inStep S hdet hfill hw hlab _ st0 st1 h1 inv0 hrun
+        exact fitterFit_wf_of_loop S hdet hfill hf ht hattrs sl _ st0 st1 h0 h1 inv1.frok inv1.ne inv1.sp st h
+    · simp [throw, throwThe, MonadExceptOf.throw] at h
+
 end PM
